@@ -9,13 +9,12 @@ From Coq Require Import Permutation.
 
 (* Every answer of every history of insert / merge / contains / recursive_iter / prefix_iter /
    find_containing_leaf / partial_cmp / == / height / is_bot / deep join / cartesian product on
-   two tries of any height equals the
-   answer of the plain set of rows, with one exception class: partial_cmp may panic where the
-   specification says None (gans_ok; see C08_pcmp_refuted). *)
+   two tries of any height equals the answer of the plain set of rows (row lists up to
+   permutation), without exception. *)
 Theorem C08_history :
   forall nk arity ops, gops_ok nk arity ops = true ->
-    Forall2 gans_ok (gmodel_run nk ops) (gspec_run nk ops).
-Proof. exact ght_history_refines. Qed.
+    Forall2 gans_equiv (gmodel_run nk ops) (gspec_run nk ops).
+Proof. exact ght_history_equiv. Qed.
 Print Assumptions C08_history.
 
 (* rows (insert t r) = rows t U {r}, for any height *)
@@ -45,12 +44,16 @@ Theorem C08_merge :
 Proof. exact merge_spec. Qed.
 Print Assumptions C08_merge.
 
-(* partial_cmp is the subset comparison of the row sets whenever it returns; when it panics
-   (unreachable!()) the row sets are incomparable, i.e. the specified answer is None *)
+(* partial_cmp is the subset comparison of the row sets, for ALL tries (it never panics) *)
 Theorem C08_pcmp :
+  forall h d a b, wf h d a -> wf h d b -> pcmp h a b = subset_cmp (riter h a) (riter h b).
+Proof. exact pcmp_is_subset_cmp. Qed.
+Print Assumptions C08_pcmp.
+
+Theorem C08_pcmp_rel :
   forall h d a b, wf h d a -> wf h d b -> cmp_rel (riter h a) (riter h b) (pcmp h a b).
 Proof. exact pcmp_spec. Qed.
-Print Assumptions C08_pcmp.
+Print Assumptions C08_pcmp_rel.
 
 Theorem C08_eq :
   forall h d a b, wf h d a -> wf h d b ->
@@ -109,13 +112,15 @@ Theorem C08_holds_b_sound :
 Proof. exact c08_holds_b_spec. Qed.
 Print Assumptions C08_holds_b_sound.
 
-(* recorded finding: GhtInner::partial_cmp reaches unreachable!() on incomparable tries *)
-Theorem C08_pcmp_refuted :
-  exists h a b,
-    a = insert h 0 (empty h) [1; 10]%N /\ b = insert h 0 (empty h) [2; 20]%N /\
-    pcmp h a b = PPanic /\ subset_cmp (riter h a) (riter h b) = PNone.
-Proof. exact pcmp_refuted. Qed.
-Print Assumptions C08_pcmp_refuted.
+(* FORMER FINDING, fixed in /repo by commit 40ab16e7935 (model updated accordingly):
+   GhtInner::partial_cmp reached unreachable!() on incomparable tries.  The former theorem was
+     C08_pcmp_refuted : exists h a b, a = insert h 0 (empty h) [1; 10] /\ b = insert h 0 (empty h) [2; 20]
+                          /\ pcmp h a b = PPanic /\ subset_cmp (riter h a) (riter h b) = PNone
+   (witness h = 1).  The same input is corpus/C08/pcmp_incomparable.json, re-checked first on
+   every run; on the fixed code and model the answer is None: *)
+Example C08_former_witness :
+  pcmp 1 (insert 1 0 (empty 1) [1; 10]%N) (insert 1 0 (empty 1) [2; 20]%N) = PNone.
+Proof. exact pcmp_former_witness. Qed.
 
 (* ---- non-vacuity *)
 Example C08_ex_wf :
